@@ -24,7 +24,19 @@ TRUSTED = ['envelope values are an oracle: the table handed to the model holds t
            'decision margin is below 1e-7 are skipped and counted']
 ASSUMPTIONS = ['an envelope is None iff the iterate has fewer than two strict interior maxima / minima (checked per visited '
                'iterate against the model\'s own count: field envdis of the GNI answer)',
-               'fixed stopping rule is used with max_iters >= 1 (max_iters = 0 does not terminate in the code; outside the documented range)']
+               'fixed stopping rule is used with max_iters >= 1 (max_iters = 0 does not terminate in the code; outside the documented range)',
+               '"bounded by the configured iteration limit" is read as: the convergence error is due after max_iters or after max_iters + 1 '
+               'iterations (the code performs max_iters + 1 for the sd / rilling rules; model and reference table follow the code): an exit the '
+               'reference reaches in iteration max_iters + 1 exactly may equally be the convergence error (tag '
+               'exit-in-iteration-max_iters+1(error-equally-accepted)); an error at an exit in iteration <= max_iters, or a returned '
+               'component when no rule fired within max_iters + 1 iterations, is a failure',
+               'NOT JUDGED (outside statement / quantifier; recorded as tags or mechanism-level, literal=False): the stand-alone stop '
+               'functions sd_stop / rilling_stop / fixed_stop / energy_stop (stream stop_rules; fixed_stop only with 1 <= niters <= max_iters), '
+               'the energy-threshold flag, invalid option values / 3-D input (stream malformed: any error, acceptance or a time-out), the '
+               'layout (n,) vs (n,1) of the returned vector',
+               'TOO LOOSE, noted: the reference table stops at 160 rows; for limits above that only an EARLY return (a candidate of one of '
+               'the first 160 iterates although no rule fired) is detected, a late stop or a limit that is never enforced only by the '
+               '10 s wall-clock budget (does-not-terminate; literal, termination being this property\'s subject)']
 RULE = ('random signals of 9 families (noise, random walk, tones+trend, AM/FM, integer plateaus, constants, ramps, engineered '
         'few-extrema n=5..16, perfect IMFs) x stop rule {sd, rilling, fixed} x thresholds over their documented ranges x step in (0,1] '
         'x max_iters {1,2,3,5,10,50,1000} x interpolation {splrep,pchip,mono_pchip} x pad_width {1,2,3,5} x energy threshold '
@@ -241,6 +253,12 @@ class Gni(Stream):
                 return 'model: %s after %s iterations; impl: %s' % (r.words[0], r.args['iters'], _short(res))
             return None
         if 'error' in res:
+            ex = out['ref']['exit']
+            if res['error'] == 'EMDSiftCovergeError' and ex and ex[0] != 'err' and case['opts']['stop_method'] != 'fixed' \
+                    and ex[1] == case['opts']['max_iters']:
+                # the model follows the code (max_iters + 1 iterations before the error); the property leaves open whether
+                # the error is due one iteration earlier
+                return 'skip:exit-in-iteration-max_iters+1-raised-as-convergence-error'
             return 'model: exit=%s iters=%s; impl raised %s' % (r.args['exit'], r.args['iters'], res['error'])
         if not S.close(res['imf'], [float(v) for v in r.vecs[0]], scale):
             return 'returned component differs: model exit=%s iters=%s' % (r.args['exit'], r.args['iters'])
@@ -261,22 +279,38 @@ class Gni(Stream):
         if 'ref_error' in out:
             return []
         ref = out['ref']
+        if ref['truncated'] and ref['exit'] is None and ref['margin'] >= S.TIE and 'imf' in res:
+            # the reference table stops at 160 rows (limits up to 1000): within it no rule fired and envelopes existed,
+            # so a returned component that is the candidate of one of these rows is an early, unconverged iterate.
+            # What happens after row 160 (a late stop, a limit that is not enforced) is NOT judged here - only the
+            # wall-clock budget above bounds it.
+            got = np.array(res['imf'])
+            if len(got) == n and np.all(np.isfinite(got)):
+                why = self._diagnose(got, _rows(out), o, 'err', len(ref['rows']), scale)
+                if why != 'returned-iterate-mismatch':
+                    return [Failure(why, 'no documented exit within the first %d iterations, limit %d' % (len(ref['rows']), o['max_iters']))]
+            return []
         if ref['truncated'] or ref['exit'] is None or ref['margin'] < S.TIE:
             return []
         kind, k, cand = ref['exit']
         rows = _rows(out)
+        # "bounded by the configured iteration limit": the property does not say whether the error is due after
+        # max_iters or after max_iters + 1 iterations (the code performs max_iters + 1 for the sd / rilling rules, which
+        # is what the reference table follows). An exit that the reference reaches in iteration max_iters + 1 exactly
+        # may therefore equally be the convergence error.
+        at_limit = o['stop_method'] != 'fixed' and kind != 'err' and k + 1 == o['max_iters'] + 1
         if 'error' in res:
             if res['error'] == 'EMDSiftCovergeError':
-                if kind != 'err':
+                if kind != 'err' and not at_limit:
                     fs.append(Failure('converge-error-although-rule-satisfied-within-limit',
-                                      'documented rule %s at iterate %d <= max_iters=%d' % (kind, k, o['max_iters'])))
+                                      'documented rule %s in iteration %d <= max_iters=%d' % (kind, k + 1, o['max_iters'])))
                 elif o['stop_method'] == 'fixed':
                     fs.append(Failure('converge-error-with-fixed-rule', ''))
             else:
                 fs.append(Failure('raises:' + res['error'], res.get('msg', '')))
             return fs
         imf = np.array(res['imf'])
-        if res['shape'] != [n, 1]:
+        if res['shape'] not in ([n, 1], [n]):       # the layout of the returned vector is not the property's subject
             fs.append(Failure('wrong-shape', 'returned %s for %d samples' % (res['shape'], n)))
             return fs
         if not np.all(np.isfinite(imf)):
@@ -300,8 +334,9 @@ class Gni(Stream):
                 if db > thr:
                     exp_flag = False
                 if exp_flag != res['flag']:
+                    # the energy threshold is in neither the statement nor the quantifier (anchors only): mechanism-level
                     fs.append(Failure('energy-flag-wrong' + (':zero-residual-energy' if math.isinf(db) else ''),
-                                      'energy difference %.6g dB, threshold %s, flag %s' % (db, thr, res['flag'])))
+                                      'energy difference %.6g dB, threshold %s, flag %s' % (db, thr, res['flag']), literal=False))
                 return fs
             else:
                 return fs
@@ -346,8 +381,12 @@ class Gni(Stream):
         elif out['ref']['exit']:
             kind, k, _ = out['ref']['exit']
             t.append('exit=%s@%s' % (kind, '0' if k == 0 else '1' if k == 1 else '2-5' if k <= 5 else '>5'))
+            if o['stop_method'] != 'fixed' and kind != 'err' and k == o['max_iters']:
+                t.append('exit-in-iteration-max_iters+1(error-equally-accepted)')
             if o['stop_method'] == 'rilling':
                 t.append('rilling-envelopes-cross=' + crossing(o, _rows(out), k))
+        if not ('ref_error' in out) and out['ref']['truncated']:
+            t.append('reference-table-truncated(not-judged)')
         res = out['res']
         t.append('impl=' + (res['error'] if 'error' in res else 'flag%d' % res['flag']))
         return t
@@ -392,7 +431,7 @@ class StopRules(Stream):
             {'rule': 'energy', 'imf': [0.0, 0.0, 0.0], 'res': [1.0, 2.0, 0.0], 'thresh': 50},
             {'rule': 'energy', 'imf': [3.0, -1.0, 2.0], 'res': [0.001, 0.002, 0.0], 'thresh': 50},
             {'rule': 'fixed', 'niters': 3, 'maxit': 3}, {'rule': 'fixed', 'niters': 2, 'maxit': 3},
-            {'rule': 'fixed', 'niters': 4, 'maxit': 3},
+            {'rule': 'fixed', 'niters': 1, 'maxit': 1},
             {'rule': 'rilling', 'U': [1.0, 1.0, 1.0, 1.0], 'L': [1.0, -1.0, -1.0, -1.0], 'th': [0.05, 0.5, 0.3]},  # amp = 0
             {'rule': 'rilling', 'U': [0.0, 1.0, 1.0, 1.0], 'L': [0.0, -1.0, -1.0, -1.0], 'th': [0.05, 0.5, 0.3]},  # 0/0
             {'rule': 'sd', 'h': [1.0, -1.0, 1.0], 'x1': [1.0, -1.0, 1.0], 'thr': 0.1},
@@ -427,7 +466,10 @@ class StopRules(Stream):
                 yield {'rule': 'rilling', 'U': S.fr_list(base + amp), 'L': S.fr_list(base - amp),
                        'th': [rng.choice([0.05, 0.1, 0.02]), rng.choice([0.5, 0.3, 1.0]), rng.choice([0.05, 0.1, 0.25, 0.5])]}
             elif rule == 'fixed':
-                yield {'rule': 'fixed', 'niters': rng.randint(0, 12), 'maxit': rng.randint(0, 12)}
+                # the documented use: iteration counter 1..max_iters of an extraction with a limit >= 1 (a counter past
+                # the limit or a limit of 0 is never produced by get_next_imf and not in the quantifier)
+                mx = rng.randint(1, 12)
+                yield {'rule': 'fixed', 'niters': mx if rng.random() < 0.4 else rng.randint(1, mx), 'maxit': mx}
             else:
                 imf = nrng.standard_normal(n) * rng.choice([1, 10, 1e-3])
                 res = nrng.standard_normal(n) * rng.choice([1, 1e-2, 1e-4, 0])
@@ -491,6 +533,16 @@ class StopRules(Stream):
         return None
 
     def holds(self, case, out):
+        # The property's words are about get_next_imf (stream gni). The stand-alone stop functions are its anchored
+        # mechanism: their call signatures, the dB convention of the energy test and their behaviour on inputs an
+        # extraction never produces (zero amplitude, upper below lower everywhere) are checked here as mechanism-level
+        # facts (literal=False: a broken correspondence, never a violation with this input as replay).
+        fs = self._holds(case, out)
+        for f in fs:
+            f.literal = False
+        return fs
+
+    def _holds(self, case, out):
         if isinstance(out, ImplError):
             return [Failure('raises:' + out['error'], out['msg'])]
         r = case['rule']
@@ -560,7 +612,7 @@ class StopRules(Stream):
 
 
 class Malformed(Stream):
-    """Inputs outside the documented domain: the only acceptable outcome is an error (model: bad-op)."""
+    """Inputs outside the documented domain (model: bad-op). Outside the property's quantifier: recorded, not judged."""
     name = 'malformed'
     parallel = False
 
@@ -589,19 +641,36 @@ class Malformed(Stream):
         if results and results[0].status != 'bad-op':
             return 'model accepted a malformed op: %s' % results[0].raw[:80]
         if not isinstance(out, ImplError):
-            return 'implementation accepted malformed input %s' % case['kw']
+            # the property quantifies over the documented rules / options only and is silent on what happens outside:
+            # a library that, say, reads stop_method case-insensitively or adds an interpolator is not judged
+            return 'skip:malformed-input-accepted(outside-the-quantifier)'
+        if out['error'] == 'Timeout':
+            return 'skip:malformed-input-timeout(outside-the-quantifier)'
         return None
 
     def holds(self, case, out):
-        if isinstance(out, ImplError):
-            return [Failure('does-not-terminate', str(case['kw']))] if out['error'] == 'Timeout' else []
-        return [Failure('malformed-input-accepted', str(case['kw']))]
+        return []     # any error class, acceptance or a time-out: nothing is claimed outside the quantifier (tags record it)
 
     def tags(self, case, out):
-        return ['error=' + (out['error'] if isinstance(out, ImplError) else 'none')]
+        return ['error=' + (out['error'] if isinstance(out, ImplError) else 'none(accepted: outside the quantifier, not judged)')]
 
     def nontrivial(self, case, out):
         return isinstance(out, ImplError)
 
 
 STREAMS = [Gni(), StopRules(), Malformed()]
+
+
+def _guard(fn):
+    """An exception inside an instance check is a harness fault (an oracle tripping over an unexpected but legal
+    output container), not the property's words failing: reported as mechanism-level, never as a violation."""
+    def holds(self, case, out):
+        try:
+            return fn(self, case, out)
+        except Exception as e:  # noqa
+            return [Failure('instance-check-crashed', repr(e), literal=False)]
+    return holds
+
+
+for _cls in {_b for _s in STREAMS for _b in type(_s).__mro__ if _b.__module__ == __name__ and 'holds' in _b.__dict__}:
+    _cls.holds = _guard(_cls.holds)
